@@ -107,6 +107,10 @@ CLAIMS["C18"] = dict(
     technique="bit-vector SMT audit over all 2^32 + 2^128 addresses of the CIDR literals read from the source each run",
     text=("Proved for every address: each CIDR literal of the default tables (privateAndLocalRanges, privateRange, loopbackRanges, linkLocalRanges) lies inside the union of the "
           "IANA special-purpose blocks that are not globally reachable (written in clientip/verif_contracts.go). A genuine defect (192.18.0.0/15 for 198.18.0.0/15) was repaired. "
+          "Proved for every input string: ParseIPAddr and trimMatchedEnds never panic, ParseIPAddr returns either a fresh non-nil, specified address with a nil error or no address with "
+          "ErrInvalidIpAddress/ErrUnspecifiedIpAddress (never an address together with an error); the remote-address and single-header resolvers return an address exactly when the error "
+          "is nil; the chain returns the result of the first resolver whose error is nil, all earlier ones having failed, and otherwise a non-nil error and no address (an empty chain "
+          "returned nil, nil: genuine defect, repaired). "
           "NOT proved, bounded only: which entry each strategy returns, never a fallback address, and independence of the rightmost strategies from anything on the left - the "
           "strategies use range-over-func iterators with non-local returns, outside the verifier's Go subset; the stand-in standins/clientip_test.go compares every resolver with a "
           "transcription of its documented strategy over all header contents of <=3 (quick) / <=4 (thorough) items from 10 shapes, one or two header lines, both headers, and left padding up to 70000 bytes."),
